@@ -216,7 +216,9 @@ def h_save_load_roundtrip(eng):
     A.install(eng, w)
     shapes = [{"states": 2, "der_states": 2, "parameters": 1}, {"alg_states": 1, "inputs": 2, "constants": 1}, {"parameters": 2, "states": 1, "der_states": 1}][eng.choice(3)]
     eng.input("variables_per_category", shapes)
-    positions = [(k, i, a) for k in A.CATEGORIES for i in range(shapes.get(k, 0)) for a in ("max", "start")]
+    # the attribute that is an expression sits on a variable of one of the five metadata categories -- or on a DERIVATIVE variable
+    # (alias detection makes der(x) the canonical variable of an algebraic v = der(x) and hands it v's min / max / nominal)
+    positions = [(k, i, a) for k in A.CATEGORIES + ["der_states"] for i in range(shapes.get(k, 0)) for a in ("max", "start")]
     key, idx, attr = positions[eng.choice(len(positions))]
     kind = ["dependent", "independent", "constant"][eng.choice(3)]
     eng.input("mx_attribute", {"category": key, "variable": idx, "attribute": attr, "kind": kind})
@@ -260,6 +262,12 @@ def h_save_load_roundtrip(eng):
                     continue
                 del ROWMAJOR[:]
                 sel = selection_of(val)
+                if cat == "der_states":
+                    # (P) same attribute values as a fresh compile, for ANY parameter values: the expression must come back as an
+                    # expression evaluated from the parameters, whatever carries it
+                    eng.prove("roundtrip2.attribute_expressions_of_derivative_variables_survive", z3.BoolVal(val is not None and (sel is not None or isinstance(val, A.MXStub))),
+                              got=repr(val), attribute=a, kind=kind)
+                    continue
                 if sel is None:
                     eng.prove("roundtrip2.mx_attribute_comes_from_the_metadata_function", False, got=repr(val))
                     continue
